@@ -14,7 +14,7 @@ def SeamFree (outs : List Write) (fs : Fs) : Prop :=
     isSub STATIC (pre ++ AFTER ++ ['\n'] ++ cs.render (readText (fs p))) = false
 
 /-- Exactness: after a generation, a path in cleanup's scope holds a file iff the generation
-wrote there or the prior file is (UTF-8 and) static-marked. -/
+wrote there or the prior file carries the static directive (in any encoding). -/
 theorem C12_exact (outs : List Write) (fs : Fs) (p : Path) (hscope : inScope p = true) :
     (gen outs fs p).isSome = true ↔ (outsFor outs p ≠ [] ∨ isStaticC (fs p) = true) := by
   simp only [gen, genAt, hscope]
@@ -46,7 +46,7 @@ theorem C12_exact (outs : List Write) (fs : Fs) (p : Path) (hscope : inScope p =
       split
       · rename_i h
         cases x with
-        | none => simp [readText, isSub] at h; revert h; decide
+        | none => simp at h
         | some _ => simp
       · split <;> simp
     have : ∀ (l : List CodeSpec) (x : Option Content), x.isSome = true →
